@@ -37,6 +37,7 @@ def run(ctx):
     ctx.guard(rule_f, ctx, ix)
     ctx.guard(rule_g, ctx, ix)
     ctx.guard(rule_h, ctx, ix)
+    ctx.guard(rule_i, ctx, ix)
 
 
 def _table(ix, mod, name):
@@ -672,3 +673,28 @@ def rule_h(ctx, ix):
                                 'hist_x_max the edges run downwards and the counts upwards, so every count is shown in the mirrored bin'
                                 % (norm(x)[:90], sorted(a), sorted(b)),
                   shape='%s: %s / %s' % (norm(x)[:80], sorted(a), sorted(b)), where=where(f, x))
+
+
+def rule_i(ctx, ix):
+    """The NaN-aware sum answers NaN when nothing was summed.  "Nothing" must mean what np.nansum leaves out - NaN, and only NaN:
+    an infinite value is summed (the total is +-inf), so it counts."""
+    R = 'C10.i'
+    ctx.describe(R, 'the emptiness test of the NaN-aware sum counts exactly the values np.nansum sums (not-NaN)', floor=1)
+    f = ix.func('glue.utils.array.nansum_with_nan_for_empty')
+    vals = f.params[0]
+    sums = [c for c in calls_in(f.node) if call_name(c) == 'nansum']
+    if len(sums) != 1:
+        raise AnalysisError('nansum_with_nan_for_empty: the np.nansum call is no longer recognised')
+    counts = [c for c in calls_in(f.node) if call_name(c) in ('sum', 'count_nonzero', 'any') and c is not sums[0] and c.args]
+    if len(counts) != 1:
+        raise AnalysisError('nansum_with_nan_for_empty: the count of summed values is no longer recognised')
+    from ..util import expand_locals
+    e = expand_locals(f.node, counts[0].args[0])
+    t = unparse(e).replace(' ', '')
+    notnan = t in ('~np.isnan(%s)' % vals, 'np.logical_not(np.isnan(%s))' % vals, '%s==%s' % (vals, vals), 'np.isnan(%s)==False' % vals,
+                   '~numpy.isnan(%s)' % vals)
+    wrong = any(k in t for k in ('isfinite', 'isinf', 'isreal', '>', '<')) and 'isnan' not in t
+    ctx.idiom(R, f.construct, 'the values counted are the not-NaN values', accepted=notnan, absent=wrong,
+              detail_absent='nansum_with_nan_for_empty counts `%s` to decide whether anything was summed, but np.nansum leaves out NaN '
+                            'only: a group whose qualifying values are all +inf (or all -inf) has the total +-inf, which is then '
+                            'overwritten by NaN (statistic "sum" with finite=False)' % unparse(e), shape=t, where=where(f, counts[0]))
